@@ -28,12 +28,6 @@ theorem loopD_length (c : Ctx σ α ξ β) (ds : List (FoldData α ξ)) (i : Nat
           subst h
           simp [ih (i + 1) st' rows' hr]
 
-/-- row of an honest result, or its error -/
-def rowE (m : Machine σ α ξ) (score : Series α → Series α → β) (retData : Bool) :
-    Except Evaluate.Err (Honest σ α) → Except Evaluate.Err (Row α β)
-  | .error e => .error e
-  | .ok h => .ok (rowOf m score retData h)
-
 theorem callsFit_refit (i : Nat) : callsFit .refit i = true := by simp [callsFit]
 theorem callsFit_zero (s : Strategy) : callsFit s 0 = true := by simp [callsFit]
 theorem callsFit_update_succ (i : Nat) (hi : i ≠ 0) : callsFit .update i = false := by
